@@ -86,6 +86,7 @@ def summarize(crate, path, ck=None, closure=False):
 
 
 _inl = {}
+SKELETON_VOCABULARY = ("take_while", "satisfy", "optional", "tag")
 
 
 def inline_helpers(crate):
@@ -108,8 +109,13 @@ def inline_helpers(crate):
         if "Public" in (b.get("vis") or "Public"):
             continue
         ret = b.get("ret", "")
+        ptys = [p.get("ty", "") for p in b["params"]]
         if ret.startswith("impl "):
-            continue
+            # parser factories: the combinator vocabulary of the skeleton and the factories parametrised by tree nodes or
+            # by the argument vector stay nodes of the skeleton; a private factory parametrised by plain data (a quote
+            # byte, a radix letter ...) is evaluated in place, so that its instances are told apart by their arguments
+            if d.split("::")[-1] in SKELETON_VOCABULARY or not ptys or any("Node" in t or "Vec<" in t for t in ptys):
+                continue
         if ret.startswith("core::result::Result<(&") and len(b["params"]) <= 1:
             continue
         out[hir.base_path(d)] = {"params": b["params"], "value": hir.async_full(b["value"]), "def": d}
